@@ -101,8 +101,10 @@ class LodOp(Harness):
                 inp["index"] = SymPyInt(symx.sym_int_range("index", -(N + 1), N + 1))
         elif m in ("extend", "add"):
             inp["other"] = LoD(mk_items(ctx, choice("m", range(0, 3)), ["k"], tag="o", id0=100))
-            if m == "extend" and choice("plain_list", [False, True]):
-                inp["other"] = [dict(it) for it in inp["other"].items]
+            if m == "extend":
+                form = choice("other_form", ["ListOfDicts", "list", "iter"])
+                if form != "ListOfDicts": inp["other"] = [dict(it) for it in inp["other"].items]
+                if form == "iter": inp["other_form"] = "iter"          # a one-shot iterator over plain dicts
         elif m in ("mul", "rmul"):
             inp["n"] = SymPyInt(symx.sym_int_range("mult", -1, 2))
         elif m in ("head", "tail"):
